@@ -10,19 +10,24 @@ From FxV Require Import model.M_AuthorityTypes gen.Gen_Authority gen.Gen_Authori
 Import ListNotations.
 Open Scope Z_scope.
 
-(* every fx-core privileged message registered on the running app's router has a handler in the
-   sources; each handler compares the authority with the keeper's before any call (kind != or
-   EqualFold), or is the crosschain router forwarding to such a handler after a read-only lookup;
-   and the keepers' authority is bound to the gov module address in app/keepers/keepers.go *)
+(* EVERY authority-carrying message type routable in the running app — fx-core's, cosmos-sdk's, ibc-go's,
+   ethermint's — has a handler in the sources (dependencies read from the module cache at the versions go.mod
+   selects, files pinned by sha256); each handler compares the authority with the keeper's before any call (kind
+   != or EqualFold), or is the crosschain router forwarding to such a handler after a read-only lookup, or is a
+   committed exception with a recognised != guard (exactly x/gov ExecLegacyContent, which first reads the gov
+   module account it compares with); the keepers' authority is bound to the gov module address in
+   app/keepers/keepers.go; and the dependency files are the pinned ones *)
 Theorem C16_all_guarded :
-  (forall m, In m gen_authmsgs -> am_in_fx m = true ->
+  (forall m, In m gen_authmsgs ->
      (exists r, In r gen_handlers /\ h_url r = am_url m) /\
      (forall r, In r gen_handlers -> h_url r = am_url m ->
         (is_delegate r = false /\ guards_first r = true) \/
         (is_delegate r = true /\ lookup_ok gen_lookups (h_file r) (h_delegate_via r) = true /\
          exists t, In t gen_handlers /\ h_url t = h_url r /\ h_name t = h_delegate r /\
-                   is_delegate t = false /\ guards_first t = true))) /\
-  gen_authaddr_expr = authaddr_expected.
+                   is_delegate t = false /\ guards_first t = true) \/
+        (is_delegate r = false /\ In (h_url r, h_against r) guard_exceptions /\ 0 <= h_guard_idx r /\ h_kind r = CmpNeq))) /\
+  gen_authaddr_expr = authaddr_expected /\
+  gen_dep_files = dep_files_expected.
 Proof. exact all_guarded_thm. Qed.
 Print Assumptions C16_all_guarded.
 
@@ -36,7 +41,7 @@ Print Assumptions C16_reject_unchanged.
 (* for every self-checking handler row generated from the sources, whatever precedes (nothing
    effectful, by the table check) and whatever follows the guard *)
 Theorem C16_generated_handlers_reject_unchanged :
-  forall r, In r gen_handlers -> is_delegate r = false ->
+  forall r, In r gen_handlers -> is_delegate r = false -> exception_ok r = false ->
   forall (St Msg : Type) (authority_of : Msg -> str) gov pre body m st,
     guard_pass (h_kind r) gov (authority_of m) = false ->
     run St Msg authority_of gov (stmts_of St Msg (h_guard_idx r) (h_kind r) (h_pre_effect r) pre body) m st = (Err, st).
@@ -47,12 +52,22 @@ Print Assumptions C16_generated_handlers_reject_unchanged.
    means the authority equals the keeper's — exactly for `!=`, up to Unicode simple case folding for
    strings.EqualFold (x/evm CallContract) *)
 Theorem C16_effect_only_gov :
-  forall r, In r gen_handlers -> is_delegate r = false ->
+  forall r, In r gen_handlers -> is_delegate r = false -> exception_ok r = false ->
   forall (St Msg : Type) (authority_of : Msg -> str) gov pre body m st,
     run St Msg authority_of gov (stmts_of St Msg (h_guard_idx r) (h_kind r) (h_pre_effect r) pre body) m st <> (Err, st) ->
     denotes_gov (h_kind r) gov (authority_of m) /\ (h_kind r = CmpNeq \/ h_kind r = CmpEqualFold).
 Proof. exact generated_handlers_effect_only_gov. Qed.
 Print Assumptions C16_effect_only_gov.
+
+(* the committed exception rows: rejection leaves the state unchanged when what precedes the guard is a read *)
+Theorem C16_exception_rows_reject_unchanged :
+  forall r, In r gen_handlers -> exception_ok r = true -> h_pre_effect r = true ->
+  forall (St Msg : Type) (authority_of : Msg -> str) gov pre body m st,
+    pre m st = (Ok, st) ->
+    guard_pass (h_kind r) gov (authority_of m) = false ->
+    run St Msg authority_of gov (stmts_of St Msg (h_guard_idx r) (h_kind r) (h_pre_effect r) pre body) m st = (Err, st).
+Proof. exact exception_rows_reject_unchanged. Qed.
+Print Assumptions C16_exception_rows_reject_unchanged.
 
 Theorem C16_fold_guard_lower_gov : forall gov a,
   lower_ascii gov -> guard_pass CmpEqualFold gov a = true -> fold a = gov.
